@@ -44,12 +44,12 @@ theorem mem_specRepair (t : Table) (f : Feature) (h : f ∈ specRepair t) :
     ∃ j, j ∈ specKeep t ∧ (specGG t)[j]? = some f := by
   simpa [specRepair, List.mem_filterMap] using h
 
-theorem locsOf_specRepair_of_not_mem (t : Table) (hns : Table.noStale t = true) (k : String)
+theorem locsOf_specRepair_of_not_mem (t : Table) (k : String)
     (hk : k ∉ Table.classKeys t) : Table.locsOf (specRepair t) k = [] := by
   simp only [Table.locsOf, List.map_eq_nil_iff, List.filter_eq_nil_iff, beq_iff_eq]
   intro f hf hfk
   obtain ⟨j, hj, hg⟩ := mem_specRepair t f hf
-  obtain ⟨idx, hi, hj'⟩ := (mem_specKeep t hns j).mp hj
+  obtain ⟨idx, hi, hj'⟩ := (mem_specKeep t j).mp hj
   have hjlt : j < t.length := groups_lt t idx hi j (List.mem_of_mem_take hj')
   have hkey := specGG_classKey t j
   rw [hg, List.getElem?_eq_getElem hjlt] at hkey
@@ -62,12 +62,12 @@ theorem locsOf_of_not_mem (t : Table) (k : String) (hk : k ∉ Table.classKeys t
   exact hk ((Table.mem_classKeys t k).mpr ⟨f, hf, hfk⟩)
 
 /-- **(f)**: per grouping text, the set of covered residues is unchanged -/
-theorem classDen_specRepair (t : Table) (hw : Table.wfT t = true) (hns : Table.noStale t = true)
+theorem classDen_specRepair (t : Table) (hw : Table.wfT t = true) (hnil : (Table.groups t).any (classNil t) = false)
     (hk2 : Table.k2 t = false) (k : String) (x : Pos) :
     x ∈ Table.classDen (specRepair t) k ↔ x ∈ Table.classDen t k := by
   by_cases hk : k ∈ Table.classKeys t
   · have hidx : Table.memberIdx t k ∈ Table.groups t := List.mem_map.mpr ⟨k, hk, rfl⟩
-    simp only [Table.classDen, locsOf_specRepair t hns k hk, classNew]
+    simp only [Table.classDen, locsOf_specRepair t hnil k hk, classNew]
     split
     · rw [← classLocs_memberIdx]
       apply mem_denList_pushedOf
@@ -79,6 +79,6 @@ theorem classDen_specRepair (t : Table) (hw : Table.wfT t = true) (hns : Table.n
       · simp only [Table.k2, List.any_eq_false] at hk2
         simpa using hk2 _ hidx
     · rw [classLocs_memberIdx]
-  · simp [Table.classDen, locsOf_specRepair_of_not_mem t hns k hk, locsOf_of_not_mem t k hk]
+  · simp [Table.classDen, locsOf_specRepair_of_not_mem t k hk, locsOf_of_not_mem t k hk]
 
 end Gts
